@@ -261,7 +261,7 @@ def per_iteration_for(I, ctl, node, env, it, k, spec):
     c = I.ctx
     qn = ctl.con.qualname
     items = list(I.iterate_concrete(it))
-    b0 = _inv_bindings(I, ctl, env, {"_items": list(items)})
+    b0 = _inv_bindings(I, ctl, env, {"_items": list(items)}, spec)
     for cid, lam in spec.at_entry:
         f = eval_clause(I, lam, _select(lam, {**b0, "fx": list(c.fx)}), old_view=ctl.old_view())
         c.check_obligation(f"{qn}::loop{k}.at_entry.{cid}", f)
@@ -301,7 +301,7 @@ def per_iteration_for(I, ctl, node, env, it, k, spec):
                     c.check_obligation(f"{qn}::loop{k}.each.exc.undeclared:{exc_class(raised).__name__}", False)
                     raise PathEnd()
             fx_iter = list(c.fx[mark:])
-            b = _inv_bindings(I, ctl, env, {"fx": fx_iter, "raised": raised, "_index": idx, "_item": item})
+            b = _inv_bindings(I, ctl, env, {"fx": fx_iter, "raised": raised, "_index": idx, "_item": item}, spec)
             for cid, lam in spec.each:
                 f = eval_clause(I, lam, _select(lam, b), old_view=ctl.old_view())
                 c.check_obligation(f"{qn}::loop{k}.each.{cid}", f)
@@ -333,7 +333,7 @@ def async_for(I, ctl, node, env, k, spec):
         raise Unsupported("async for over something that is not an assumed async generator")
     if spec is None:
         raise Unsupported(f"async for loop #{k} of {qn} has no loop contract")
-    b0 = _inv_bindings(I, ctl, env, {"fx": list(c.fx)})
+    b0 = _inv_bindings(I, ctl, env, {"fx": list(c.fx)}, spec)
     for cid, lam in spec.at_entry:
         f = eval_clause(I, lam, _select(lam, b0), old_view=ctl.old_view())
         c.check_obligation(f"{qn}::loop{k}.at_entry.{cid}", f)
@@ -360,7 +360,7 @@ def async_for(I, ctl, node, env, k, spec):
         broke = True
     except ContinueSig:
         pass
-    b = _inv_bindings(I, ctl, env, {"fx": list(c.fx[mark:]), "broke": broke, "item": item, "_item": item})
+    b = _inv_bindings(I, ctl, env, {"fx": list(c.fx[mark:]), "broke": broke, "item": item, "_item": item}, spec)
     for cid, lam in spec.each:
         f = eval_clause(I, lam, _select(lam, b), old_view=head_view)
         c.check_obligation(f"{qn}::loop{k}.each.{cid}", f)
@@ -377,7 +377,7 @@ def install(I, con, node, bindings):
 
 
 # ---------------------------------------------------------------------------
-def _inv_bindings(I, ctl, env, extra):
+def _inv_bindings(I, ctl, env, extra, spec=None):
     b = dict(ctl.bindings)
     e = env
     chain = []
@@ -386,20 +386,49 @@ def _inv_bindings(I, ctl, env, extra):
         e = e.parent
     for vars_ in reversed(chain):
         b.update(vars_)
+    roles = getattr(spec, "roles", None)
+    if roles:
+        # decided once, when the loop is first reached (entry values), then fixed for the rest of the path
+        memo = ctl.__dict__.setdefault("_role_map", {})
+        key = id(spec)
+        if key not in memo:
+            m = {}
+            locals_ = {}
+            for vars_ in reversed(chain):
+                locals_.update(vars_)
+            for rname, pred in roles.items():
+                if rname in locals_:
+                    continue  # the code still spells it that way
+                hits = []
+                for lname, val in locals_.items():
+                    if lname in ctl.bindings or lname in roles:
+                        continue
+                    try:
+                        ok = pred(val)
+                    except Exception:
+                        ok = False
+                    if ok is True:
+                        hits.append(lname)
+                if len(hits) == 1:
+                    m[rname] = hits[0]
+            memo[key] = m
+        for rname, lname in memo[key].items():
+            if lname in b:
+                b[rname] = b[lname]
     b.update(extra)
     return b
 
 
 def _check_invs(I, ctl, spec, k, env, extra, stage):
     qn = ctl.con.qualname
-    b = _inv_bindings(I, ctl, env, extra)
+    b = _inv_bindings(I, ctl, env, extra, spec)
     for iid, lam in spec.invariants:
         f = eval_clause(I, lam, _select(lam, b), old_view=ctl.old_view())
         I.ctx.check_obligation(f"{qn}::loop{k}.{iid}.{stage}", f)
 
 
 def _assume_invs(I, ctl, spec, env, extra):
-    b = _inv_bindings(I, ctl, env, extra)
+    b = _inv_bindings(I, ctl, env, extra, spec)
     for iid, lam in spec.invariants:
         f = eval_clause(I, lam, _select(lam, b), old_view=ctl.old_view())
         I.ctx.assume(_z(f))
@@ -497,7 +526,7 @@ def invariant_while(I, ctl, node, env, k, spec):
     _assume_invs(I, ctl, spec, env, {})
     variant0 = None
     if spec.variant is not None:
-        b = _inv_bindings(I, ctl, env, {})
+        b = _inv_bindings(I, ctl, env, {}, spec)
         from .modular import _eval_value
 
         variant0 = _eval_value(I, spec.variant, b)
@@ -512,7 +541,7 @@ def invariant_while(I, ctl, node, env, k, spec):
         except ContinueSig:
             pass
         if spec.each:
-            b = _inv_bindings(I, ctl, env, {"fx": list(I.ctx.fx[mark:]), "broke": broke})
+            b = _inv_bindings(I, ctl, env, {"fx": list(I.ctx.fx[mark:]), "broke": broke}, spec)
             for cid, lam in spec.each:
                 names_ = lam.__code__.co_varnames[: lam.__code__.co_argcount]
                 if any(n_ not in b and n_ != "old" for n_ in names_):
@@ -525,7 +554,7 @@ def invariant_while(I, ctl, node, env, k, spec):
         if spec.variant is not None:
             from .modular import _eval_value
 
-            v1 = _eval_value(I, spec.variant, _inv_bindings(I, ctl, env, {}))
+            v1 = _eval_value(I, spec.variant, _inv_bindings(I, ctl, env, {}, spec))
             I.ctx.check_obligation(
                 f"{ctl.con.qualname}::loop{k}.variant.decreases",
                 z3.And(int_term(v1) < int_term(variant0), int_term(variant0) >= 0),
@@ -582,7 +611,7 @@ def invariant_for(I, ctl, node, env, it, k, spec):
         ghosts0 = {"_i": SInt(lo)}
         if spec.at_entry:
             # facts about the state when the loop is reached, and about the range it is going to walk
-            b0 = _inv_bindings(I, ctl, env, {"_lo": SInt(lo), "_hi": SInt(hi), "fx": list(c.fx)})
+            b0 = _inv_bindings(I, ctl, env, {"_lo": SInt(lo), "_hi": SInt(hi), "fx": list(c.fx)}, spec)
             for cid, lam in spec.at_entry:
                 f = eval_clause(I, lam, _select(lam, b0), old_view=ctl.old_view())
                 c.check_obligation(f"{ctl.con.qualname}::loop{k}.at_entry.{cid}", f)
@@ -604,7 +633,7 @@ def invariant_for(I, ctl, node, env, it, k, spec):
             except ContinueSig:
                 pass
             if spec.each:
-                b = _inv_bindings(I, ctl, env, {"fx": list(c.fx[mark:]), "broke": broke, "_i": SInt(i)})
+                b = _inv_bindings(I, ctl, env, {"fx": list(c.fx[mark:]), "broke": broke, "_i": SInt(i)}, spec)
                 for cid, lam in spec.each:
                     names_ = lam.__code__.co_varnames[: lam.__code__.co_argcount]
                     if any(n_ not in b and n_ != "old" for n_ in names_):
